@@ -251,7 +251,7 @@ func RemoveAll(fs FS, path string) error {
 }
 
 func removeAll(fs FS, path string) error {
-	info, err := Stat(fs, path)
+	info, err := LstatOrStat(fs, path) // a symbolic link is removed itself, never followed: what it points to is not below 'path'
 	if err != nil {
 		if errors.Is(err, ErrNotExist) {
 			err = nil
